@@ -1014,6 +1014,7 @@ func PrintScript(asserts []*Term, comments []string, getModel bool, modelTerms [
 		fmt.Fprintf(&sb, "(declare-fun %s (%s) %s)\n", f.Name, strings.Join(as, " "), f.Res)
 	}
 	names := map[*Term]string{}
+	letCounter := 0
 	var render func(t *Term) string
 	render = func(t *Term) string {
 		if n, ok := names[t]; ok {
@@ -1033,7 +1034,49 @@ func PrintScript(asserts []*Term, comments []string, getModel bool, modelTerms [
 			for _, b := range t.Bound {
 				bs = append(bs, fmt.Sprintf("(%s %s)", b.Name, b.Sort))
 			}
+			// share repeated sub-terms of the body that mention bound variables through let
+			cnt := map[*Term]int{}
+			var ord []*Term
+			var walk func(x *Term)
+			walk = func(x *Term) {
+				if !x.hasBnd && x.Op != "bound" {
+					return
+				}
+				if _, named := names[x]; named {
+					return
+				}
+				cnt[x]++
+				if cnt[x] > 1 {
+					return
+				}
+				if x.Op == "forall" || x.Op == "exists" {
+					return
+				}
+				for _, a := range x.Args {
+					walk(a)
+				}
+				ord = append(ord, x)
+			}
+			walk(t.Args[0])
+			var lets []string
+			var bound []*Term
+			for _, x := range ord {
+				if cnt[x] > 1 && len(x.Args) > 0 && x.Op != "forall" && x.Op != "exists" {
+					s := render(x)
+					letCounter++
+					nm := fmt.Sprintf("l%d", letCounter)
+					lets = append(lets, fmt.Sprintf("(let ((%s %s)) ", nm, s))
+					names[x] = nm
+					bound = append(bound, x)
+				}
+			}
 			body := render(t.Args[0])
+			if len(lets) > 0 {
+				body = strings.Join(lets, "") + body + strings.Repeat(")", len(lets))
+			}
+			for _, x := range bound {
+				delete(names, x)
+			}
 			if len(t.Pats) > 0 {
 				var ps []string
 				for _, p := range t.Pats {
